@@ -224,7 +224,8 @@ V("c03-budget-via-float", "C03", {"rule": "C03a", "contains": "int("},
 V("c03-chain-rule-add", "C03", {"rule": "C03a", "contains": "frequency"},
   (SIMF, "                subbranch.frequency *= branch.frequency", "                subbranch.frequency += branch.frequency"))
 V("c03-result-counts-float", "C03", {"rule": "C03a", "contains": "int("},
-  ("piquasso/api/result.py", "            ret[branch.outcome] = int(branch.frequency * shots)", "            ret[branch.outcome] = int(float(branch.frequency) * shots)"))
+  ("piquasso/api/result.py", "            ret[branch.outcome] = ret.get(branch.outcome, 0) + int(\n                branch.frequency * shots\n            )\n",
+   "            ret[branch.outcome] = ret.get(branch.outcome, 0) + int(\n                float(branch.frequency) * shots\n            )\n"))
 V("c03-imperfect-float", "C03", {"rule": "C03a", "contains": "frequency"},
   ("piquasso/_simulators/simulation_steps.py", "        outcome: Fraction(count, shots)\n", "        outcome: count / shots\n"))
 V("c03-shots-none-range", "C03", {"rule": "C03b", "contains": "shots"},
